@@ -5,8 +5,9 @@ another keyspace, major compaction) released inside the window."""
 import random, re
 from common import run_fjv, pmap, known_switch, proof_audit, TRUSTED_BASE
 
-LEVEL = "exploration"
-COQ_TARGETS = ()
+LEVEL = "proof"
+COQ_TARGETS = ("props/C06.vo",)
+THEOREMS = ["C06_snapshot_atomic", "C06_bump_refuted"]
 KEYS = ["61", "62", "63", "64", "65"]
 
 
@@ -180,6 +181,7 @@ def stress(seed):
 
 
 def run(rep, tier, seed, build):
+    obl, dis, pproblems = proof_audit("props/C06.v", THEOREMS, build["coq"])
     n = 120 if tier == "quick" else 3000
     scs = [schedule(seed * 179424673 + i) for i in range(n)]
     res = pmap(judge, scs, workers=12)
@@ -215,7 +217,14 @@ def run(rep, tier, seed, build):
                              "one must see the whole batch; distinct by (site, maintenance, db mode, items, tx)",
                         samples=[scs[0]["prog"].splitlines()], schedules_with_maintenance=sum(1 for s in scs if s["maint"] != "none"),
                         known_finding_schedules=len(known), disagreements_checked=len(bad))
-    rep.assumptions = ["schedules are enumerated through pause points; free-running thread schedules are sampled in C14"]
+    rep.coverage.update(obligations=obl, discharged=dis if not pproblems else min(dis, obl - 1),
+                        checker_cmd="cd coq && make props/C06.vo (coqc 8.16.1) + Print Assumptions audit", trusted_base=TRUSTED_BASE,
+                        traces_validated_against_impl=n, proof_problems=pproblems)
+    if pproblems and not rep.violations:
+        rep.violation("# C06: proof obligations no longer check\n" + "\n".join(pproblems) + "\n", suffix="no-failing-input-found")
+    rep.assumptions = ["the theorem is over Conc.v (journal mutex = one in-flight slot; Rust Mutex mutual exclusion assumed); it holds for "
+                       "every interleaving WITHOUT the version-upgrade bump, and is refuted with it (known finding E4)",
+                       "schedules on the implementation are enumerated through pause points; free-running schedules are sampled"]
 
 
 def replay(rep, path, build):
